@@ -392,6 +392,7 @@ func runC03(c *Ctx) {
 		c.verdict(key, token.NoPos, good, fmt.Sprintf("footer size %d agrees between FooterSize(), parser and constructor", want), "footer size differs between FooterSize(), the parser's length check and the footer constructor")
 	}
 	clauseMarkImpliesAdd(c, "C03.f")
+	runC03extra(c, at)
 	c.assume("compress/gzip, klauspost/zstd and tar-split produce valid streams; countWriter counts the bytes handed to the buffered writer")
 }
 
@@ -644,6 +645,70 @@ func runC14(c *Ctx) {
 		}
 	}
 
+	if f := c.mustFn(esp, "importTar"); f != nil {
+		n, good := 0, true
+		eachInstr(f, func(i ssa.Instruction) {
+			b, ok := i.(*ssa.BinOp)
+			if !ok || b.Op != token.EQL {
+				return
+			}
+			var other ssa.Value
+			if s, ok := constString(b.Y); ok && (s == pfl || s == npfl) {
+				other = b.X
+			} else if s, ok := constString(b.X); ok && (s == pfl || s == npfl) {
+				other = b.Y
+			}
+			if other == nil {
+				return
+			}
+			n++
+			call, ok := stripConv(other).(*ssa.Call)
+			if !ok || calleeID(call) != esp+".cleanEntryName" {
+				good = false
+			}
+		})
+		c.verdict(c.fnKey(f)+":landmark-filter-normalised", f.Pos(), good && n >= 2, "pre-existing landmarks are recognised by their cleaned name, like every other name lookup of tarFile", "importTar compares the raw header name with the landmark names: a landmark spelled ./.prefetch.landmark in an already converted layer survives and the output carries two landmarks")
+	}
+	if f := c.mustFn(esp, "moveRec"); f != nil {
+		// a missing path is detected before anything is moved
+		var effects []ssa.Instruction
+		for _, ci := range callsIn(f, idIs(esp+".moveRec", esp+".(*tarFile).add")) {
+			effects = append(effects, ci)
+		}
+		n, good := 0, true
+		for _, r := range realReturns(f) {
+			isNF := false
+			for _, v := range retVals(r, 0) {
+				if call, ok := stripConv(v).(*ssa.Call); ok && calleeID(call) == "fmt.Errorf" {
+					for _, a := range varargs(call.Call.Args[1]) {
+						if g, ok := loadOf(stripConv(a)); ok {
+							if gl, ok := g.(*ssa.Global); ok && gl.Name() == "errNotFound" {
+								isNF = true
+							}
+						}
+						if mi, ok := stripConv(a).(*ssa.MakeInterface); ok {
+							if g, ok := loadOf(stripConv(mi.X)); ok {
+								if gl, ok := g.(*ssa.Global); ok && gl.Name() == "errNotFound" {
+									isNF = true
+								}
+							}
+						}
+					}
+				}
+			}
+			if !isNF {
+				continue
+			}
+			n++
+			for _, e := range effects {
+				if hit, _ := reach(f, e, isInstr(r), nil); hit != nil {
+					good = false
+				}
+			}
+		}
+		c.verdict(c.fnKey(f)+":missing-path-has-no-effect", f.Pos(), good && n > 0, "errNotFound is returned before any parent or link target is moved", "a listed path that does not exist is detected only after its parent directories were moved into the prioritized area: they leave their original order although the path is reported as missed")
+	}
+
 	// ---------- C14.c ----------
 	c.clause("C14.c", "T1", "an entry whose name is in needsOpenGzEntries always starts a fresh compressed stream; Build registers both landmarks there", 2)
 	if f := c.mustFn(esp, "(*Writer).needsOpenGz"); f != nil {
@@ -768,4 +833,151 @@ func phiChain(v ssa.Value, src ssa.Value, depth int) bool {
 		}
 	}
 	return false
+}
+
+func runC03extra(c *Ctx, at *ssa.Function) {
+	// ---------- C03.g ----------
+	c.clause("C03.g", "T9", "appendTar reads the whole input through one stream: what follows the tar end-of-archive marker is copied from the same (decompressed) reader the tar reader consumed", 1)
+	if at != nil {
+		var trSrc []ssa.Value
+		for _, ci := range callsIn(at, func(id string, _ ssa.CallInstruction) bool { return strings.HasSuffix(id, "archive/tar.NewReader") }) {
+			trSrc = append(trSrc, ci.Common().Args[0])
+		}
+		n := 0
+		for _, ci := range callsIn(at, idIs("io.Copy")) {
+			src := ci.Common().Args[1]
+			// only the remainder copy: its source is an input reader, not the tar reader's payload
+			if strings.Contains(src.Type().String(), "tar.Reader") {
+				continue
+			}
+			n++
+			good := false
+			for _, t := range trSrc {
+				if sameValue(t, src) {
+					good = true
+				}
+			}
+			c.verdict(c.fnKey(at)+":remainder-source", ci.Pos(), good && len(trSrc) == 1, "remainder copied from the tar reader's own source", "the bytes after the end-of-archive marker are read from a different reader than the tar entries (e.g. the still-compressed input): the lossless blob no longer decompresses to the input")
+		}
+		if n == 0 {
+			c.bad(c.fnKey(at)+":remainder-copy", at.Pos(), "appendTar no longer drains/preserves the bytes after the end-of-archive marker")
+		}
+	}
+
+	// ---------- C03.h ----------
+	c.clause("C03.h", "T3", "tarFile keeps entries in arrival order: its stream is only appended to (add) or filtered (remove), never overwritten in place, so the last duplicate of a name takes the position of its own occurrence", 2)
+	for _, a := range c.fieldAccesses(esp+".tarFile", "stream", c.pkgFuncs(esp)) {
+		if a.write {
+			st, _ := a.instr.(*ssa.Store)
+			fn := c.fnKey(a.fn)
+			good := fn == esp+".(*tarFile).add" || fn == esp+".(*tarFile).remove"
+			if good && fn == esp+".(*tarFile).add" && st != nil {
+				call, ok := stripConv(st.Val).(*ssa.Call)
+				if b, isB := func() (*ssa.Builtin, bool) {
+					if !ok {
+						return nil, false
+					}
+					b, k := call.Call.Value.(*ssa.Builtin)
+					return b, k
+				}(); !isB || b.Name() != "append" {
+					good = false
+				}
+			}
+			c.verdict(fn+":stream-write", a.instr.Pos(), good, "stream replaced only by append (add) or by the filtered copy (remove)", "tarFile.stream is written outside add/remove or not by appending: entry order is no longer arrival order")
+			continue
+		}
+		// element stores through a loaded stream value
+		ld, ok := a.instr.(*ssa.UnOp)
+		if !ok {
+			continue
+		}
+		for _, r := range *ld.Referrers() {
+			ia, ok := r.(*ssa.IndexAddr)
+			if !ok {
+				continue
+			}
+			for _, rr := range *ia.Referrers() {
+				if st, ok := rr.(*ssa.Store); ok && st.Addr == ssa.Value(ia) {
+					c.bad(c.fnKey(a.fn)+":stream-element-store", st.Pos(), "an element of tarFile.stream is overwritten in place: a replaced duplicate keeps the position of its first occurrence (e.g. a hardlink ends up before its target)")
+				}
+			}
+		}
+	}
+	if f := c.mustFn(esp, "importTar"); f != nil {
+		// a duplicate is removed before the new entry is appended
+		adds := callsIn(f, idIs(esp+".(*tarFile).add"))
+		rems := callsIn(f, idIs(esp+".(*tarFile).remove"))
+		gets := callsIn(f, idIs(esp+".(*tarFile).get"))
+		good := len(adds) == 1 && len(rems) == 1 && len(gets) >= 1
+		if good {
+			// on the "exists" edge of get, remove is passed before add
+			var exists []edge
+			for _, g := range gets {
+				if gc, ok := g.(*ssa.Call); ok {
+					for _, r := range *gc.Referrers() {
+						if ex, ok := r.(*ssa.Extract); ok && ex.Index == 1 {
+							exists = append(exists, boolEdges(f, ex, true)...)
+						}
+					}
+				}
+			}
+			good = len(exists) > 0
+			for _, e := range exists {
+				tgt := f.Blocks[e.from].Succs[e.succ]
+				if tgt.Instrs[0] != ssa.Instruction(rems[0].(*ssa.Call)) {
+					if hit, _ := reach(f, tgt.Instrs[0], isInstr(adds[0]), newCuts().addCalls(rems)); hit != nil {
+						good = false
+					}
+				}
+			}
+		}
+		c.verdict(c.fnKey(f)+":duplicate-removed-then-appended", f.Pos(), good, "an existing name is removed before the new entry is appended", "importTar can append a duplicate name without removing the earlier entry, or no longer appends the replacement")
+	}
+
+	// ---------- C03.i ----------
+	c.clause("C03.i", "T9", "the external TOC handed out by WriteTOCTo is the one written by the latest WriteTOCAndFooter: the gzip stream goes into a buffer created by that call, which then replaces gc.buf", 1)
+	const xp = "estargz/externaltoc"
+	if f := c.mustFn(xp, "(*GzipCompressor).WriteTOCAndFooter"); f != nil {
+		var dst ssa.Value
+		for _, ci := range callsIn(f, idIs("compress/gzip.NewWriterLevel", "compress/gzip.NewWriter")) {
+			dst = ci.Common().Args[0]
+		}
+		fresh := false
+		if dst != nil {
+			for _, v := range append([]ssa.Value{dst}, reachingVals(dst)...) {
+				v = stripConv(v)
+				if mi, ok := v.(*ssa.MakeInterface); ok {
+					v = stripConv(mi.X)
+				}
+				if al, ok := v.(*ssa.Alloc); ok && al.Heap {
+					fresh = true
+				}
+				if call, ok := v.(*ssa.Call); ok && calleeID(call) == "bytes.NewBuffer" {
+					fresh = true
+				}
+			}
+			// or: reset on every path before use
+			if !fresh {
+				resets := callsIn(f, idIs("bytes.(*Buffer).Reset"))
+				if len(resets) > 0 {
+					if okp, _ := mustPass(f, dst.(ssa.Instruction), newCuts().addCalls(resets)); okp {
+						fresh = true
+					}
+				}
+			}
+		}
+		stored := false
+		for _, a := range c.fieldAccesses(xp+".GzipCompressor", "buf", []*ssa.Function{f}) {
+			if st, ok := a.instr.(*ssa.Store); ok && a.write && dst != nil {
+				d := stripConv(dst)
+				if mi, ok := d.(*ssa.MakeInterface); ok {
+					d = stripConv(mi.X)
+				}
+				if stripConv(st.Val) == d || sameValue(st.Val, d) {
+					stored = true
+				}
+			}
+		}
+		c.verdict(c.fnKey(f)+":toc-buffer", f.Pos(), dst != nil && fresh && stored, "TOC compressed into a buffer of this call, which becomes gc.buf", "the external TOC buffer is reused across blobs without being emptied, or the written buffer is not the one WriteTOCTo serves: a second blob's TOC starts with the first blob's")
+	}
 }
